@@ -343,9 +343,9 @@ CONFIG = {
     "post_model": _c15_vm_sample,
     "timeout_search": 1500,
     "assumptions": [
-        "net/url (URL.Parse reference resolution, URL.String, Query/Encode escaping) is abstract: the theorems quantify over any Link rendering `render` and resolver `resolve` such that resolving the registry's link text against the request URL yields the intended target (same path; query = cursor `last`, the registry's extra parameters, the request's other parameters); the harness checks this on every followed link for absolute, absolute-path, path-relative, query-only and scheme-relative forms with escaped values",
+        "net/url is MODELLED on byte strings for a judged subset (Model/PagingUrl.v: Parse of a reference incl. scheme detection, first-segment-colon and bad-escape errors, host[:port] authorities, ResolveReference with Go 1.26 dot-segment removal, re-parse by http.NewRequest; fragments, user info, valid %-escapes or exotic bytes in a path, non-ASCII, opaque URLs are UNJUDGED) and compared with the real client on every followed link (raw path + raw query, byte for byte) and on random references; the association-list theorems (C15_exactly_once ...) still quantify over an abstract `render`/`resolve`, connected to the string level by C15_next_request_link_forms (forms </p?q>, <?q>, <http://h/p?q>, <//h/p?q>), C15_step_simulation and the all-histories refinement C15_string_loop_refines (hypotheses: the server answers indistinguishable requests alike; net/url-as-modelled and the abstract resolver agree on the links served); the path-relative form <./seg?q> is covered by the correspondence only",
         "encoding/json is abstract: a response is (well-formed?, document length, body length, decoded items) as declared by the generator for the shapes it produces (natural, padded inside, `null` / `{\"tags\":null}` for an empty page, leading white space, a second document behind, truncated/ill-typed bodies); C15_limit_bytes assumes the stream decoder is self-delimiting on the document (decoding stops at its end; no proper prefix is accepted) -- the harness checks it with documents of limit-1, limit, limit+1 bytes incl. the 4 MiB default",
-        "queries are association lists key -> value (n numeric); setting n / last replaces that key and keeps every other pair as written (code after fix 635f618: the raw query is edited, nothing is re-encoded; before it, pairs that url.ParseQuery rejects were dropped -- generated as raw `;` / malformed-escape pairs, corpus/C15/rawquery-prefix.json); the order of different keys is not modelled (compared key-sorted)",
+        "queries: the association-list model (url.Values.Set = replace) is refined by the string model of setQueryParams / QueryEscape / QueryUnescape (C15_set_query_params_verbatim, _read, C15_request_query_refines: for every key a registry looks up it reads what the association-list request says; lookup = first match of a lenient parse, as fakereg.ParseQueryLenient); bytes are < 256; the pre-fix lossy url.Values round trip is kept as mk_request_prefix (C15_lossy_query_refuted)",
         "the registry model's meaning of `last`: items after the entry named last; an unknown name is placed before the first greater item (= all greater items on a sorted registry, C15_last_on_sorted_registry); item names are non-empty and distinct",
         "a legal registry: page window of length in [1, min(cap, n)] chosen freely per request, of which it shows any subset (`vis`: entries it does not show give empty pages with a link); Link iff items remain after the window; its continuation is either `last=<last item of the window>` or an opaque cursor under another key (CToken key salt, key different from n/last/artifactType, value salt++name; such a link carries no `last`); the link may point to another path (`npath`) and may be answered after a redirect hop; it does not change artifactType and filters whenever it announces filtering (header or annotation, comma separated list)",
         "http transport, auth client and context cancellation are outside the model; Repository.Referrers' capability detection (unknown/supported/unsupported, fallback to the tag schema, state set once) is modelled (referrers_wrap, C15_referrers_capability) on top of the API loop and the tag-schema path; the tag-schema path is modelled at the level (tag found?, index size, listed referrers): limitSize + filterReferrers (C15_tag_schema), manifest fetch / digest verification are C13/C05 matters; pingReferrers is modelled on one response (C15_ping_agrees)",
@@ -354,11 +354,13 @@ CONFIG = {
         "never over-read: the theorems speak of the reader abstraction `seen` (what passes limitReader is a prefix of the body of at most the limit, C15_limit/C15_limit_bytes) and of `limitSize`; how many bytes the decoder actually pulls is NOT modelled -- that clause is judged by the harness oracle with a counting body on every 200 answer (listings, Referrers wrapper incl. the index GET of the fallback, body cases); error bodies (non-200) are read by errutil under its own 8 KiB limit and are not judged",
         "calculateDigestFromResponse (manifest GET without Docker-Content-Digest) is modelled (digest_probe, C15_digest_probe: Content-Length over the limit refused before reading, else limitReader; the theorem assumes Content-Length = body length, which the transport guarantees); its first version (limit+1 reader) is kept as digest_probe_v1 with a refuted witness, fixed finding over-read-digest-probe; content/oci: a reference in digest form can only be the content's own digest (C08 fix 2b70301), the generator checks that the digest of other content is refused and that Tags() skips digest entries",
         "the known finding link-rel-ignored is matched by mechanism: only exactly-once / next-request / spurious-error failures of a run in which some request IS the target of the rel=first link-value; every other signature in such a run is reported as itself",
+        "47 syntactic facts about the mirrored Go functions (translator kind c15_srcfact: where `last` is cleared, how parseLink reads and resolves the header, setQueryParams' split/cut/unescape/escape, the error texts the harness classifies by, limitReader, the Referrers fallback condition, listTags' comparisons) are regenerated on every run and proved by reflexivity (Proofs/PagingFacts.v): an edit there breaks layer P; 27 functions are anchored",
+        "every call into the implementation runs under a 20 s watchdog: a wedge is the oracle failure `hang` with the scenario as replay",
         "every input stream has a coverage floor (harness exits non-zero = broken layer R when a stream is nearly empty)",
         "content/oci listTags is modelled on the resolver map as a list of (reference, digest of its descriptor) in any order; Go string order = byte-wise lexicographic order",
     ],
     "level_text": "Coq theorems for all item lists, split oracles, caps, page sizes, values of last, Link renderings and filter announcements: Tags/Repositories/Referrers deliver exactly the registry's suffix after last (resp. the referrers of the requested artifact type), once, in order, within |suffix|+1 requests; a failing callback truncates the listing at that invocation with its error; pages come only from documents that fit MaxMetadataBytes (<= 0 = regenerated default), at most that many bytes pass the reader; Repository.Referrers takes its callback arguments from exactly one of the API and the tag schema, returns a callback error unchanged and sets the capability once (after fix a06e319); the referrers tag-schema fallback rejects an index over the limit and otherwise delivers the filtered referrers of the cleaned index (no empty entry, no descriptor twice) in one non-empty page; content/oci listTags is the sorted set of non-digest references greater than last for every map order. Model tied to registry/remote and content/oci by a differential run against an in-process fake registry (PRNG split oracle, five Link forms, malformed stream) and an independent oracle",
-    "level_note": "the clause `no more than MaxMetadataBytes is read` is a theorem only about the reader abstraction (prefix of at most the limit); the bytes really consumed are oracle-only. net/url resolution and encoding/json are hypotheses of the theorems (checked by the harness on every followed link / around the limit); transport, auth and manifest fetching of the tag-schema fallback are not modelled; Link relation types are ignored by the code (known finding link-rel-ignored)",
+    "level_note": "string level (net/url subset, setQueryParams, escaping, loop_s) modelled, corresponded on raw requests and proved to refine the association-list loop; the composition with the registry theorems is via the hypotheses of C15_exactly_once_string_loop (server coherence, link coherence), discharged per step for four link forms (C15_step_simulation). the clause `no more than MaxMetadataBytes is read` is a theorem only about the reader abstraction (prefix of at most the limit); the bytes really consumed are oracle-only. net/url resolution and encoding/json are hypotheses of the theorems (checked by the harness on every followed link / around the limit); transport, auth and manifest fetching of the tag-schema fallback are not modelled; Link relation types are ignored by the code (known finding link-rel-ignored)",
     "technique": "machine-checked proof in Coq (induction over the page loop against a nondeterministic registry; prefix/refinement for callback failure; sorting) + translator-regenerated constants + model/implementation correspondence against harness/fakereg",
     "explanation": "theorems over all lists/splits/links about the model of the page loops, parseLink, limitReader, filterReferrers and listTags; constants regenerated from registry/remote; model and real client run on the same fake-registry scripts (requests, callback arguments, outcome compared), the fake registry's pages compared with the registry model; independent exactly-once / stop-on-error / over-read / truncation / sortedness oracle",
 }
